@@ -209,6 +209,18 @@ func (p *pathNode) addPathNodeFor(name string, pn *pathNode) {
 // returned by this function. Any operations on the removed tree must use this
 // value.
 func (p *pathNode) removeWithName(name string, fn func(ref *fidRef)) *pathNode {
+	// References taken for the callbacks below are dropped only after
+	// childMu has been released (deferred calls run last-in, first-out):
+	// dropping the last reference makes DecRef call removeChild on the
+	// parent's pathNode, which is p itself when fn moved the child within
+	// this directory, and childMu is not reentrant.
+	var pinned []*fidRef
+	defer func() {
+		for _, ref := range pinned {
+			ref.DecRef()
+		}
+	}()
+
 	p.childMu.Lock()
 	defer p.childMu.Unlock()
 
@@ -226,7 +238,7 @@ func (p *pathNode) removeWithName(name string, fn func(ref *fidRef)) *pathNode {
 			// been destroyed, then we can skip the callback.
 			if ref.TryIncRef() {
 				fn(ref)
-				ref.DecRef()
+				pinned = append(pinned, ref)
 			}
 		}
 	}
